@@ -147,6 +147,9 @@ def run(ctx):
     rr = ctx.rng("c10b")
     if not ctx.thorough:
         exprs = [e for i, e in enumerate(exprs) if i % 2 == ctx.seed % 2] + exprs[:4]
+    # sub-queries as operands (with and without their own ORDER BY / LIMIT / OFFSET): an extra pair of parentheses around them is inert too
+    subq = ["(select z from w)", "(select z from w order by z desc limit 1)", "(select z from w where z > n limit 2 offset 1)", "(select z from w union select k from u order by 1)"]
+    exprs += subq + ["n = %s" % q for q in subq[:2]] + ["n in %s" % subq[1], "exists %s" % subq[1], "m1 + %s" % subq[1]]
     for e in exprs:
         ref = None
         for pn, (mk, get) in POS.items():
